@@ -95,7 +95,10 @@ partial def parseTree (cx : TreeCtx) : List String → Option (Op Float × List 
     | ["modsq"] => some (.leaf modSqLeaf, rest)
     | ["prox", name, flags] => do
         let id ← parseId name flags
-        some (.leaf (Leaf.ofProg (fun _ _ => nanF) (prog cx.fns cx.par id) cx.data), rest)
+        -- proximal_convex_conj_l1 closes over lam * (1 - eps)
+        let par := if name = "ccL1" then { cx.par with lam := cx.par.lam * (1.0 - cx.par.eps) }
+                   else cx.par
+        some (.leaf (Leaf.ofProg (fun _ _ => nanF) (prog cx.fns par id) cx.data), rest)
     | _ => none
 
 /-- `tree mode=oop|ip|alias n=N t=TOKENS x=… y=… lam=… sigma=… gamma=… radius=… eps=… g=… sig=…
